@@ -174,4 +174,5 @@ C17_rejoins_bounded_counterexample
 C17_never_idle
 C17_fatal_surfaces
 C17_rejoins_bounded
+C17_join_progress
 -/
